@@ -43,4 +43,10 @@ class CovergroupInt():
     def __exit__(self, t, v, tb):
         leave_expr_mode()
         self.ctor_level -= 1
+        if t is not None and self.ctor_level == 0:
+            # The constructor was aborted by an exception. Expressions it 
+            # had evaluated up to that point must not be left on the shared 
+            # expression stack, where the next constraint block would adopt them
+            from vsc.impl.ctor import clear_exprs
+            clear_exprs()
         
